@@ -52,9 +52,12 @@ Proof. exact kv_delete_cas_variant. Qed.
 Theorem C10_txn_verbs : honest_on (fun _ c => is_cond (tx_op c) = true) W_txn.
 Proof. exact txn_cond_honest. Qed.
 
+(* is_cond covers the cas / delete-cas verbs and the guard verbs check-index / check-not-exists /
+   check-session (which write nothing but make the whole transaction conditional);
+   mismatch_err op = EGuard for a guard verb, EStale otherwise *)
 Theorem C10_txn_mismatch_is_stale : forall s c,
   is_cond (tx_op c) = true -> op_matched (tx_op c) s = false ->
-  txn1 c s = (s, Store.Model.CTxn [] [(0%nat, Store.Model.EStale)]).
+  txn1 c s = (s, Store.Model.CTxn [] [(0%nat, mismatch_err (tx_op c))]).
 Proof. exact txn_cond_mismatch_is_stale. Qed.
 
 (* a mismatching conditional verb anywhere in a transaction: nothing of the transaction is applied *)
@@ -63,6 +66,23 @@ Theorem C10_txn_mismatch_aborts : forall idx ops1 op ops2 s s1 r1,
   txn_ok (Store.Model.txn_rw idx (ops1 ++ op :: ops2) s).2 = false /\
   (Store.Model.txn_rw idx (ops1 ++ op :: ops2) s).1 = s.
 Proof. exact txn_cond_mismatch_aborts. Qed.
+
+(* composite clause for transactions of ANY length: committed iff every operation succeeds in
+   sequence, each on the state its predecessors produced; then the state is that sequential
+   composition, otherwise it is untouched -- all parts or none *)
+Theorem C10_txn_all_parts_or_none : forall idx ops s,
+  match Store.Theorems.seq_ops idx ops s with
+  | Store.Model.Ok (s', _) => txn_ok (Store.Model.txn_rw idx ops s).2 = true /\ (Store.Model.txn_rw idx ops s).1 = s'
+  | Store.Model.Err _ _ => txn_ok (Store.Model.txn_rw idx ops s).2 = false /\ (Store.Model.txn_rw idx ops s).1 = s
+  end.
+Proof. exact txn_all_parts_or_none. Qed.
+
+(* success direction: every conditional operation of a committed transaction matched in ITS state *)
+Theorem C10_txn_committed_cond_op_matched : forall idx ops1 op ops2 s s1 r1,
+  Store.Theorems.seq_ops idx ops1 s = Store.Model.Ok (s1, r1) -> is_cond op = true ->
+  txn_ok (Store.Model.txn_rw idx (ops1 ++ op :: ops2) s).2 = true ->
+  op_matched op s1 = true /\ r_ok (op_write idx op s1) = true.
+Proof. exact txn_committed_cond_op_matched. Qed.
 
 (* ---------- config entries (for EVERY graph validator) ---------- *)
 Theorem C10_config_entry_upsert : forall graph_ok, honest (W_cfg_upsert graph_ok).
@@ -76,6 +96,43 @@ Theorem C10_config_entry_delete_reports_removal : forall graph_ok s c,
   is_Some (cfg s !! d_key c) /\ cfg (cw_post (W_cfg_delete graph_ok) s c) !! d_key c = None.
 Proof. exact cfg_delete_reports_removal. Qed.
 
+(* ---------- config entries, the RPC endpoints ConfigEntry.Apply / ConfigEntry.Delete: REFUTED ---------- *)
+(* full statement: honest (W_rpc_cfg_upsert graph_ok).  Witness: service-defaults/web stored at index 5
+   with content 1; UpsertCAS of the same content expecting index 3 is answered true *)
+Theorem C10_config_entry_rpc_upsert_refuted :
+  let W := W_rpc_cfg_upsert (fun _ _ => true) in
+  cw_ok W rpc_witness_state rpc_witness_cmd = true /\ cw_matched W rpc_witness_state rpc_witness_cmd = false /\
+  cw_post W rpc_witness_state rpc_witness_cmd = rpc_witness_state.
+Proof. exact rpc_cfg_upsert_refuted. Qed.
+
+Theorem C10_config_entry_rpc_upsert_not_honest : ~ honest (W_rpc_cfg_upsert (fun _ _ => true)).
+Proof. exact rpc_cfg_upsert_not_honest. Qed.
+
+(* exact hypothesis: the endpoint does not short-circuit (stored content/status differ from the submitted) *)
+Theorem C10_config_entry_rpc_upsert_partial : forall graph_ok,
+  honest_on (fun s c => rpc_skipped s c = false) (W_rpc_cfg_upsert graph_ok).
+Proof. exact rpc_cfg_upsert_partial. Qed.
+
+(* and when it does: "true", nothing written, the stored entry already has the submitted content *)
+Theorem C10_config_entry_rpc_upsert_skip : forall graph_ok s c,
+  rpc_skipped s c = true ->
+  apply graph_ok (u_idx c) (rcmd c) s = (s, RBool true) /\
+  exists x, cfg s !! u_key c = Some x /\ ce_content x = u_content c.
+Proof. exact rpc_cfg_upsert_skip. Qed.
+
+(* DeleteCAS through the endpoint: an absent entry is answered Deleted = true for every index *)
+Theorem C10_config_entry_rpc_delete_not_honest : ~ honest (W_rpc_cfg_delete (fun _ _ => true)).
+Proof. exact rpc_cfg_delete_not_honest. Qed.
+
+Theorem C10_config_entry_rpc_delete_absent : forall graph_ok s c,
+  cfg s !! rd_key c = None ->
+  apply graph_ok (rd_idx c) (RpcCfgDelete true (rd_key c) (rd_cidx c)) s = (s, RBool true).
+Proof. exact rpc_cfg_delete_absent. Qed.
+
+Theorem C10_config_entry_rpc_delete_partial : forall graph_ok,
+  honest_on (fun s c => is_Some (cfg s !! rd_key c)) (W_rpc_cfg_delete graph_ok).
+Proof. exact rpc_cfg_delete_partial. Qed.
+
 (* ---------- CA configuration: a mismatch is an ERROR ---------- *)
 Theorem C10_ca_config : honest W_ca_config.
 Proof. exact ca_config_honest. Qed.
@@ -85,9 +142,20 @@ Theorem C10_ca_config_mismatch_is_error : forall s c,
   (apply (fun _ _ => true) (ca_idx c) (cacmd c) s).2 = RErr ECAConfigIndex.
 Proof. exact ca_config_mismatch_is_error. Qed.
 
+(* explicit deviation: at the FSM command an expected index of zero is "no check" (unconditional
+   write, result nil), not "must be absent" as for the same entity inside the composite command *)
+Theorem C10_ca_config_zero_overwrites : forall s cl pr idx,
+  apply (fun _ _ => true) idx (CASetConfig cl pr 0) s = (ca_set_config_txn idx cl pr s, RNil).
+Proof. exact ca_config_zero_overwrites. Qed.
+
 (* ---------- CA roots ---------- *)
 Theorem C10_ca_roots : honest W_ca_roots.
 Proof. exact ca_roots_honest. Qed.
+
+Theorem C10_ca_roots_stale_is_false : forall s c,
+  roots_valid (rr_roots c) = true -> cw_matched W_ca_roots s c = false ->
+  apply (fun _ _ => true) (rr_idx c) (CASetRoots (rr_cidx c) (rr_roots c)) s = (s, RBool false).
+Proof. exact ca_roots_stale_is_false. Qed.
 
 (* ---------- composite: roots and configuration, all or none ---------- *)
 Theorem C10_roots_and_config : honest W_roots_config.
@@ -134,6 +202,13 @@ Theorem C10_acl_token_mismatch_reports_success : forall s c,
   well_formed (tk_req c) -> cw_matched W_token s c = false ->
   apply (fun _ _ => true) (tk_idx c) (tkcmd c) s = (s, RNil).
 Proof. exact token_cas_mismatch_reports_success. Qed.
+
+(* a CAS batch is NOT all-or-none: the refused token is skipped, its neighbour written, result nil *)
+Theorem C10_acl_token_batch_partial_application :
+  let s := tok_witness_state in
+  let r := apply (fun _ _ => true) 9 (TokenSet true [TokReq "t1" "s1" 2 3; TokReq "t2" "s2" 7 0]) s in
+  r.2 = RNil /\ tokens r.1 !! "t1" = tokens s !! "t1" /\ (t_descr <$> tokens r.1 !! "t2") = Some 7.
+Proof. exact token_batch_skips. Qed.
 
 (* ---------- visibility: at an index above every stored one an accepted write always shows ---------- *)
 Theorem C10_reachable_bounded : forall graph_ok log n s,
@@ -211,6 +286,23 @@ Example C10_example_hypotheses :
   effective W_txn ex_state (TXC 7 (Store.Model.TNode Store.Model.CCAS "n1" "id1" 9 2)).
 Proof. exact example_hypotheses. Qed.
 
+Example C10_example_txn_cond_not_first :
+  let ops1 := [Store.Model.TKV Store.Model.VSet (Store.Model.KVReq "a" [7] 0 "" 0 0)] in
+  let op := Store.Model.TKV Store.Model.VCAS (Store.Model.KVReq "a" [8] 0 "" 3 0) in
+  let tl := [Store.Model.TKV Store.Model.VSet (Store.Model.KVReq "t" [9] 0 "" 0 0)] in
+  (exists s1 r1, Store.Theorems.seq_ops 7 ops1 ex_state = Store.Model.Ok (s1, r1) /\ op_matched op s1 = false /\
+                 op_matched op ex_state = true) /\
+  txn_ok (Store.Model.txn_rw 7 (ops1 ++ op :: tl) ex_state).2 = false /\
+  (Store.Model.txn_rw 7 (ops1 ++ op :: tl) ex_state).1 = ex_state.
+Proof. exact ex_txn_cond_not_first. Qed.
+
+Example C10_example_txn_guard_after_cas :
+  let ops := [Store.Model.TKV Store.Model.VCAS (Store.Model.KVReq "a" [8] 0 "" 3 0);
+              Store.Model.TKV Store.Model.VCheckIndex (Store.Model.KVReq "t" [] 0 "" 5 0)] in
+  (Store.Model.txn_rw 7 ops ex_state).2 = Store.Model.CTxn [] [(1%nat, Store.Model.EGuard)] /\
+  (Store.Model.txn_rw 7 ops ex_state).1 = ex_state.
+Proof. exact ex_txn_guard_after_cas. Qed.
+
 Print Assumptions C10_schema.
 Print Assumptions C10_kv_cas.
 Print Assumptions C10_kv_delete_cas.
@@ -246,3 +338,17 @@ Print Assumptions C10_example_bounded.
 Print Assumptions C10_example_cfg.
 Print Assumptions C10_example_composite.
 Print Assumptions C10_example_hypotheses.
+Print Assumptions C10_txn_all_parts_or_none.
+Print Assumptions C10_txn_committed_cond_op_matched.
+Print Assumptions C10_config_entry_rpc_upsert_refuted.
+Print Assumptions C10_config_entry_rpc_upsert_not_honest.
+Print Assumptions C10_config_entry_rpc_upsert_partial.
+Print Assumptions C10_config_entry_rpc_upsert_skip.
+Print Assumptions C10_config_entry_rpc_delete_not_honest.
+Print Assumptions C10_config_entry_rpc_delete_absent.
+Print Assumptions C10_config_entry_rpc_delete_partial.
+Print Assumptions C10_ca_config_zero_overwrites.
+Print Assumptions C10_ca_roots_stale_is_false.
+Print Assumptions C10_acl_token_batch_partial_application.
+Print Assumptions C10_example_txn_cond_not_first.
+Print Assumptions C10_example_txn_guard_after_cas.
